@@ -33,6 +33,8 @@ def representatives(seed):
     dt = lambda s, u="ns": np.array(s, dtype=f"datetime64[{u}]")  # noqa: E731
     arrs = {
         "b-1d": np.array([True, False, True]), "b-0d": np.array(True), "b-2d": np.array([[True], [False]]), "b-empty": np.array([], dtype=bool),
+        # lengths around the byte / word sizes a packed encoding would use
+        **{f"b-len{n}": (np.arange(n) % 3 == 0) for n in (7, 8, 9, 15, 16, 17, 24, 64, 65)}, "b-len8-alltrue": np.ones(8, dtype=bool), "b-2d-4x4": (np.arange(16).reshape(4, 4) % 2 == 0),
         "i8-1d": np.array([-128, 127], dtype="int8"), "i64-ext": np.array([-2**63, 2**63 - 1, 0], dtype="int64"), "i-0d": np.array(-7),
         "i-2d": np.arange(6, dtype="int32").reshape(2, 3), "i-empty": np.array([], dtype="int64"),
         "u64-ext": np.array([2**64 - 1, 2**53 + 1, 0], dtype="uint64"), "u16": np.array([0, 65535], dtype="uint16"), "u-0d": np.array(4294967295, dtype="uint32"),
@@ -264,6 +266,8 @@ def body(chk):
     for k in (range(K) if chk.tier == "thorough" else (0, 3, 6, 9)):
         for level in ("1.5", "1.1"):
             cases.append(dict(level=level, images=(("HH", None, 3, 2), ("HV", "F1", 1, 1)), seed=chk.seed + k, k=k))
+    for k, imgs in ((1, (("HH", None, 8, 1), ("HV", "F1", 16, 2))), (2, (("VV", None, 24, 1), ("VH", None, 7, 1)))):  # line counts at byte / word boundaries
+        cases.append(dict(level="1.1", images=imgs, seed=chk.seed + 30 + k, k=k))
     lc.prepare_layouts(cases)
     gres = checklib.pmap(group_task, cases, chk.scratch)
     ng = 0
